@@ -146,20 +146,58 @@ theorem port_closed (h : run m init (a ++ Event.joinResolved res :: b) = some s)
       (step m s .connectRefused).isSome = true := by
   obtain ⟨s1, s2, -, -, -, hj, hb⟩ := at_join h
   have abs := joined_absorbing hj hb
-  refine ⟨abs.2.2.1, ?_, ?_⟩ <;> simp [step, abs.1, Phase.isJoined]
+  refine ⟨abs.2.2.1, ?_, ?_⟩ <;> simp [step, abs.1, Phase.listenerClosed]
 
-/-- A refused connect is only ever observed after the join resolved. -/
-theorem refused_only_after_join (h : run m init (a ++ Event.connectRefused :: b) = some s) :
-    ∃ res, Event.joinResolved res ∈ a := by
+/-- The listener is in fact dropped earlier, when the server task is done
+(`Drained`): already from then on no connect is accepted, and a refused connect
+is only ever observed after that point. -/
+theorem port_closed_after_drain (h : run m init (a ++ Event.drained :: b) = some s) :
+    Event.connectAccepted ∉ b ∧ step m s .connectAccepted = none := by
+  obtain ⟨s1, s2, -, -, -, hd, hb⟩ := at_drain h
+  have abs := listenerClosed_absorbing (by rw [hd]; rfl) hb
+  refine ⟨abs.2.1, ?_⟩
+  simp [step, abs.1]
+
+theorem refused_only_after_drain (h : run m init (a ++ Event.connectRefused :: b) = some s) :
+    Event.drained ∈ a := by
   obtain ⟨s1, h1, h2⟩ := run_prefix h
   obtain ⟨s2, h3, -⟩ := run_cons h2
   simp only [step] at h3
   split at h3
   · rename_i hj
-    cases hp : s1.phase with
-    | joined x => exact ⟨x, ((sinv_of_run h1).joinedEv x).1 hp⟩
-    | _ => simp [hp, Phase.isJoined] at hj
+    exact (sinv_of_run h1).drainedEv hj
   · cases h3
+
+/-- **Graceful shutdown waits for every connection with a request in flight.**
+When the server task is done (`Drained`), a handler that started and has not
+ended can only be a detached handler whose own client has left: every handler
+of a client that is still connected, and in cancel mode every handler, has
+ended before. -/
+theorem drain_waits (h : run m init (a ++ Event.drained :: b) = some s)
+    (hs : Event.lc (.start r) ∈ a) :
+    (Event.lc (.done r) ∈ a ∨ Event.lc (.drop r) ∈ a ∨ Event.lc (.panic r) ∈ a) ∨
+    (m = .detached ∧ ∃ c, Event.lc (.reqSent c r) ∈ a ∧ Event.lc (.disconnect c) ∈ a) := by
+  obtain ⟨s1, s2, h1, -, hact, -, -⟩ := at_drain h
+  have I := lc_inv h1
+  have S := sinv_of_run h1
+  have h1' := I.notStarted r
+  have h2' := I.completed r
+  have h3' := I.cancelled r
+  have h4' := I.panicked r
+  simp only [mem_lcTrace] at h1' h2' h3' h4'
+  cases hh : (s1.lc.req r).h with
+  | running =>
+    right
+    obtain ⟨hm, hg⟩ := hact r ((S.activeRunning r).2 hh)
+    refine ⟨hm, ?_⟩
+    simp only [clientGone] at hg
+    split at hg
+    · rename_i c hc
+      refine ⟨c, ?_, ?_⟩
+      · have := (I.conn r c).1 hc; rwa [mem_lcTrace] at this
+      · have := (I.gone c).1 hg; rwa [mem_lcTrace] at this
+    · cases hg
+  | _ => left; simp_all
 
 /-- **All waiters agree.**  Any two released waiters (`close()` itself is
 waiter 0) got the same result, namely the value the join resolved with. -/
@@ -184,24 +222,30 @@ theorem waiter_after_join {x : Bool} (h : run m init (a ++ Event.waiterReleased 
     exact ((sinv_of_run h1).joinedEv x).1 hg.1
   · cases h3
 
-/-- The join resolves at most once, after `CloseRequested` and `AcceptStopped`
-(in that order). -/
+/-- The join resolves at most once, after `CloseRequested`, `AcceptStopped`
+and `Drained` (in that order). -/
 theorem close_order (h : run m init (a ++ Event.joinResolved res :: b) = some s) :
-    Event.closeRequested ∈ a ∧ Event.acceptStopped ∈ a ∧ (∀ x, Event.joinResolved x ∉ b) ∧
-    (∀ a1 a2, a = a1 ++ Event.acceptStopped :: a2 → Event.closeRequested ∈ a1) := by
+    Event.closeRequested ∈ a ∧ Event.acceptStopped ∈ a ∧ Event.drained ∈ a ∧
+    (∀ x, Event.joinResolved x ∉ b) ∧
+    (∀ a1 a2, a = a1 ++ Event.acceptStopped :: a2 → Event.closeRequested ∈ a1) ∧
+    (∀ a1 a2, a = a1 ++ Event.drained :: a2 → Event.acceptStopped ∈ a1) := by
   obtain ⟨s1, s2, h1, -, hph, hj, hb⟩ := at_join h
   have S := sinv_of_run h1
   refine ⟨S.closeReq (by simp [hph]), S.acceptSt (by simp [hph]) (by simp [hph]),
-    (joined_absorbing hj hb).2.2.2.1, ?_⟩
-  intro a1 a2 ha
-  subst ha
-  obtain ⟨t1, g1, g2⟩ := run_prefix h1
-  obtain ⟨t2, g3, -⟩ := run_cons g2
-  simp only [step] at g3
-  split at g3
-  · rename_i hg
-    exact (sinv_of_run g1).closeReq (by simp [hg])
-  · cases g3
+    S.drainedEv (by rw [hph]; rfl), (joined_absorbing hj hb).2.2.2.1, ?_, ?_⟩
+  · intro a1 a2 ha
+    subst ha
+    obtain ⟨t1, g1, g2⟩ := run_prefix h1
+    obtain ⟨t2, g3, -⟩ := run_cons g2
+    simp only [step] at g3
+    split at g3
+    · rename_i hg
+      exact (sinv_of_run g1).closeReq (by simp [hg])
+    · cases g3
+  · intro a1 a2 ha
+    subst ha
+    obtain ⟨t1, t2, g1, g2, -, -, -⟩ := at_drain h1
+    exact (sinv_of_run g1).acceptSt (by simp [g2]) (by simp [g2])
 
 /-- The server closes a connection under its client only because of shutdown
 (or a panic on that connection), and never while a handler runs on it. -/
@@ -238,53 +282,47 @@ theorem conn_closed_only_idle (h : run m init (a ++ Event.connClosed c :: b) = s
       cases hh : (s1.lc.req r).h <;> simp_all
   · cases h3
 
+/-- The internal steps that remain once no handler is running. -/
+def remaining : Phase → List Event
+  | .closeRequested => [.acceptStopped, .drained, .joinResolved true]
+  | .acceptStopped => [.drained, .joinResolved true]
+  | .drained => [.joinResolved true]
+  | _ => []
+
 /-- **Shutdown terminates, under fairness.**  Explicit fairness hypothesis:
 every started handler has finished (`s.active = []`).  Then, once shutdown has
 been requested, the remaining internal steps are enabled and the join resolves;
 afterwards every waiter can be released with that result. -/
 theorem close_terminates
-    (hp : s.phase = .closeRequested ∨ s.phase = .acceptStopped)
+    (hp : s.phase = .closeRequested ∨ s.phase = .acceptStopped ∨ s.phase = .drained)
     (hfair : s.active = []) :
-    ∃ ext s', run m s ext = some s' ∧ s'.phase = .joined true ∧
-      (∀ e ∈ ext, e = Event.acceptStopped ∨ e = Event.joinResolved true) ∧
-      ∀ i, s'.waiter i = none → (step m s' (.waiterReleased i true)).isSome = true := by
-  rcases hp with hp | hp
-  · refine ⟨[.acceptStopped, .joinResolved true], { s with phase := .joined true }, ?_, rfl, ?_, ?_⟩
-    · simp [run, step, hp, hfair]
-    · simp
-    · intro i hi; simp at hi; simp [step, hi]
-  · refine ⟨[.joinResolved true], { s with phase := .joined true }, ?_, rfl, ?_, ?_⟩
-    · simp [run, step, hp, hfair]
-    · simp
-    · intro i hi; simp at hi; simp [step, hi]
+    run m s (remaining s.phase) = some { s with phase := .joined true } ∧
+      ∀ i, s.waiter i = none →
+        (step m { s with phase := .joined true } (.waiterReleased i true)).isSome = true := by
+  refine ⟨?_, fun i hi => by simp [step, hi]⟩
+  rcases hp with hp | hp | hp <;> simp [remaining, run, step, hp, hfair]
 
 /-- The fairness hypothesis is realisable by the handlers alone: from any
-state of an accepted trace in which shutdown has been requested, letting each
-running handler finish (`Done`; always enabled for a running handler, whether
-or not its client is still there) and nothing else leads to the join. -/
+state in which shutdown has been requested, letting each running handler
+finish (`Done`; always enabled for a running handler, whether or not its
+client is still there) and nothing else leads to the join. -/
 theorem close_terminates_by_handlers (n : Nat) (s : State)
     (hlen : s.active.length ≤ n)
     (hrun : ∀ r ∈ s.active, (s.lc.req r).h = .running)
-    (hp : s.phase = .closeRequested ∨ s.phase = .acceptStopped) :
+    (hp : s.phase = .closeRequested ∨ s.phase = .acceptStopped ∨ s.phase = .drained) :
     ∃ ext s', run m s ext = some s' ∧ s'.phase = .joined true ∧
-      ∀ e ∈ ext, (∃ r, e = Event.lc (.done r)) ∨ e = Event.acceptStopped ∨
+      ∀ e ∈ ext, (∃ r, e = Event.lc (.done r)) ∨ e = Event.acceptStopped ∨ e = Event.drained ∨
         e = Event.joinResolved true := by
   induction n generalizing s with
   | zero =>
     have hnil : s.active = [] := List.eq_nil_of_length_eq_zero (Nat.le_zero.1 hlen)
-    rcases hp with hp | hp
-    · exact ⟨[.acceptStopped, .joinResolved true], { s with phase := .joined true },
-        by simp [run, step, hp, hnil], rfl, by simp⟩
-    · exact ⟨[.joinResolved true], { s with phase := .joined true },
-        by simp [run, step, hp, hnil], rfl, by simp⟩
+    refine ⟨remaining s.phase, _, (close_terminates hp hnil).1, rfl, ?_⟩
+    rcases hp with hp | hp | hp <;> simp [hp, remaining]
   | succ n ih =>
     cases hact : s.active with
     | nil =>
-      rcases hp with hp | hp
-      · exact ⟨[.acceptStopped, .joinResolved true], { s with phase := .joined true },
-          by simp [run, step, hp, hact], rfl, by simp⟩
-      · exact ⟨[.joinResolved true], { s with phase := .joined true },
-          by simp [run, step, hp, hact], rfl, by simp⟩
+      refine ⟨remaining s.phase, _, (close_terminates hp hact).1, rfl, ?_⟩
+      rcases hp with hp | hp | hp <;> simp [hp, remaining]
     | cons r rest =>
       have hr : (s.lc.req r).h = .running := hrun r (by simp [hact])
       -- let handler r finish
@@ -327,24 +365,26 @@ def exShutdown : List Event :=
   [.lc (.reqSent 3 30), .lc (.start 30), .lc (.done 30), .lc (.respDelivered 30),
    .lc (.reqSent 1 10), .lc (.start 10), .lc (.reqSent 2 20), .lc (.start 20),
    .lc (.disconnect 2), .closeRequested, .connectAccepted, .connClosed 3, .lc (.tick 20),
-   .lc (.done 10), .lc (.respDelivered 10), .connClosed 1, .lc (.done 20),
-   .acceptStopped, .joinResolved true, .waiterReleased 1 true, .waiterReleased 0 true,
+   .lc (.done 10), .lc (.respDelivered 10), .connClosed 1,
+   .acceptStopped, .drained, .connectRefused, .lc (.done 20), .joinResolved true,
+   .waiterReleased 1 true, .waiterReleased 0 true,
    .connectRefused, .waiterReleased 2 true]
 
 example : acceptsSettled .detached exShutdown = true := by decide
-example : accepts .cancel exShutdown = true := by decide
+/-- in cancel mode the same trace is refused: handler 20 would have been waited for by `Drained` -/
+example : accepts .cancel exShutdown = false := by decide
 
 /-- The monitor has teeth: the join may not resolve while a (detached) handler
 runs; waiters may not disagree; no connect is accepted after the join; no
 handler starts after the join; an idle connection is not closed before
 shutdown is requested. -/
 example : accepts .detached [.lc (.reqSent 1 10), .lc (.start 10), .lc (.disconnect 1),
-    .closeRequested, .acceptStopped, .joinResolved true] = false := by decide
-example : accepts .detached [.closeRequested, .acceptStopped, .joinResolved true,
+    .closeRequested, .acceptStopped, .drained, .joinResolved true] = false := by decide
+example : accepts .detached [.closeRequested, .acceptStopped, .drained, .joinResolved true,
     .waiterReleased 0 true, .waiterReleased 1 false] = false := by decide
-example : accepts .cancel [.closeRequested, .acceptStopped, .joinResolved true,
+example : accepts .cancel [.closeRequested, .acceptStopped, .drained,
     .connectAccepted] = false := by decide
-example : accepts .cancel [.lc (.reqSent 1 10), .closeRequested, .acceptStopped,
+example : accepts .cancel [.lc (.reqSent 1 10), .closeRequested, .acceptStopped, .drained,
     .joinResolved true, .lc (.start 10)] = false := by decide
 example : accepts .cancel [.lc (.reqSent 1 10), .lc (.start 10), .lc (.done 10),
     .lc (.respDelivered 10), .connClosed 1] = false := by decide
